@@ -28,7 +28,13 @@ RULE_SYS = ("; next to it the two streamer models of the closed loops (Model/Usb
             "the handler model's transmitter wires; Desc.Block.step over Rom.layout of the case's descriptor table wired to "
             "value / length / start_position / start / ready, in the cases with GetDescriptorHandlerBlock) are compared with "
             "the real transmitter's / descriptor handler's outputs in every cycle (41 values per cycle)")
-RULE = dev_ctl.RULE + dev_ctl.CYC_RULE + RULE_SYS
+RULE_STATUS = ("; status stage IN: the host repeats the status IN (up to three times) when its ACK of the status ZLP was lost / "
+               "corrupted / replaced by a NAK; the monitor demands an answer (ZLP / NAK / STALL, silence = "
+               "c07-repeated-status-in-not-answered) to EVERY status-stage IN of a SET_ADDRESS / SET_CONFIGURATION / "
+               "CLEAR_FEATURE(ENDPOINT_HALT) / singly-claimed extra-handler transfer until the host has ACKed the ZLP, the device "
+               "STALLed, a new SETUP token or a reset; a repeated status OUT is not judged (the unchanged device answers only the "
+               "first one)")
+RULE = dev_ctl.RULE + RULE_STATUS + dev_ctl.CYC_RULE + RULE_SYS
 ASSUMPTIONS = dev_ctl.ASSUMPTIONS
 PARTIAL_STREAMS = (
     "the property theorems are about the event-level model, tied to the whole USBDevice by event-by-event co-simulation; the "
